@@ -478,29 +478,6 @@ func (b *bodyRun) runLoop(li *loopInfo) {
 		eval  func(st *State, phiVals map[*ssa.Phi]Value) *smt.Term
 	}
 	var items []invItem
-	for _, inv := range invs {
-		inv := inv
-		// an invariant that names a local the code no longer has is dropped with
-		// a note (the derived invariant below may still carry the proof); it is
-		// never a reason to stop
-		if msg := b.invResolves(inv, names, stIn, label); msg != "" {
-			e.note("%s: invariant `%s` not used: %s", label, inv.Text, msg)
-			continue
-		}
-		items = append(items, invItem{label: clauseLabel(inv), eval: func(st *State, phiVals map[*ssa.Phi]Value) *smt.Term {
-			var over map[string]specVar
-			if phiVals != nil {
-				over = map[string]specVar{}
-				for _, p := range phis {
-					v := phiVals[p]
-					if p.Comment != "" {
-						over[p.Comment] = func(*State) Value { return v }
-					}
-				}
-			}
-			return e.evalSpecBool(inv, b.specVars(names, over), st, e.entryState(), label+" invariant")
-		}})
-	}
 	var ctrPhi *ssa.Phi
 	var ctrInit *smt.Term
 	var ctrSigned bool
@@ -558,10 +535,29 @@ func (b *bodyRun) runLoop(li *loopInfo) {
 		// (range loops); B must be defined outside the loop.
 		if ifi, ok := h.Instrs[len(h.Instrs)-1].(*ssa.If); ok && signed {
 			if cmp, ok := ifi.Cond.(*ssa.BinOp); ok && cmp.Op == token.LSS && li.blocks[h.Succs[0]] && !li.blocks[h.Succs[1]] {
-				outside := func(v ssa.Value) bool {
+				// the bound may also be recomputed in the loop header from values
+				// defined outside (`i < len(x.f)`): pure address arithmetic, loads
+				// and len/cap.  Whether memory it reads stays the same is not
+				// assumed: the invariant is checked at every back edge like any other.
+				var outside func(v ssa.Value) bool
+				outside = func(v ssa.Value) bool {
 					switch x := v.(type) {
-					case *ssa.Const, *ssa.Parameter, *ssa.FreeVar:
+					case *ssa.Const, *ssa.Parameter, *ssa.FreeVar, *ssa.Global:
 						return true
+					case *ssa.FieldAddr:
+						return !li.blocks[x.Block()] || outside(x.X)
+					case *ssa.Field:
+						return !li.blocks[x.Block()] || outside(x.X)
+					case *ssa.UnOp:
+						return !li.blocks[x.Block()] || (x.Op == token.MUL && outside(x.X))
+					case *ssa.Call:
+						if !li.blocks[x.Block()] {
+							return true
+						}
+						if bi, ok := x.Call.Value.(*ssa.Builtin); ok && (bi.Name() == "len" || bi.Name() == "cap") && len(x.Call.Args) == 1 {
+							return outside(x.Call.Args[0])
+						}
+						return false
 					case ssa.Instruction:
 						return !li.blocks[x.Block()]
 					}
@@ -599,7 +595,7 @@ func (b *bodyRun) runLoop(li *loopInfo) {
 							v = st.env[p]
 						}
 						t := v.(Scalar).T
-						bt := e.eval(st, bound).(Scalar).T
+						bt := b.evalPure(st, bound).(Scalar).T
 						if strict {
 							return c.Or(c.BVSlt(t, bt), c.Eq(t, initT))
 						}
@@ -624,6 +620,46 @@ func (b *bodyRun) runLoop(li *loopInfo) {
 				return c.BVSle(initT, t)
 			}
 			return c.BVUle(initT, t)
+		}})
+	}
+	for _, inv := range invs {
+		inv := inv
+		// an invariant that names a local the code no longer has is dropped with
+		// a note (the derived invariant below may still carry the proof); it is
+		// never a reason to stop
+		if msg := b.invResolves(inv, names, stIn, label, ctrPhi); msg != "" {
+			e.note("%s: invariant `%s` not used: %s", label, inv.Text, msg)
+			continue
+		}
+		items = append(items, invItem{label: clauseLabel(inv), eval: func(st *State, phiVals map[*ssa.Phi]Value) *smt.Term {
+			over := map[string]specVar{}
+			if phiVals != nil {
+				for _, p := range phis {
+					v := phiVals[p]
+					if p.Comment != "" {
+						over[p.Comment] = func(*State) Value { return v }
+					}
+				}
+			}
+			if ctrPhi != nil {
+				// `loopindex`: the index the iteration at this loop head works on,
+				// whatever the loop form (range loops keep the previous index in
+				// their header phi)
+				over["loopindex"] = func(s2 *State) Value {
+					var v Value
+					if phiVals != nil {
+						v = phiVals[ctrPhi]
+					} else {
+						v = s2.env[ctrPhi]
+					}
+					t := v.(Scalar).T
+					if li.rangeLoop {
+						t = c.BVAdd(t, c.BVC(1, t.Sort.W))
+					}
+					return Scalar{T: t, Typ: ctrPhi.Type()}
+				}
+			}
+			return e.evalSpecBool(inv, b.specVars(names, over), st, e.entryState(), label+" invariant")
 		}})
 	}
 	// inv-init
@@ -651,10 +687,23 @@ func (b *bodyRun) runLoop(li *loopInfo) {
 			b.runRegion(li.order, li)
 		}()
 		found := e.writes
+		dryBacks := b.back[li]
 		e.writes = oldW
 		b.pending, b.rets, b.back, b.prepared = saveP, saveR, saveB, savePrep
 		grew := false
 		for k, l := range found {
+			// only what a *continuing* iteration leaves behind is carried to the
+			// next one: a location written solely on paths that leave the loop
+			// (e.g. `x[i] = v; break`) still has its header value at every back edge
+			carried := false
+			for _, es := range dryBacks {
+				if v, ok := es.st.mem[l.Obj]; ok && v != st.mem[l.Obj] {
+					carried = true
+				}
+			}
+			if !carried && len(dryBacks) > 0 {
+				continue
+			}
 			if l.Obj.Pre || stIn.mem[l.Obj] != nil || hasObj(stIn, l.Obj) {
 				if _, ok := writes[k]; !ok {
 					writes[k] = l
@@ -668,6 +717,12 @@ func (b *bodyRun) runLoop(li *loopInfo) {
 	}
 	// the real pass
 	st := stIn
+	preVals := map[*Object]Value{}
+	for _, l := range writes {
+		if v, ok := stIn.mem[l.Obj]; ok {
+			preVals[l.Obj] = v
+		}
+	}
 	b.havoc(st, phis, writes, li, true)
 	if e.writes != nil {
 		for k, l := range writes {
@@ -689,13 +744,26 @@ func (b *bodyRun) runLoop(li *loopInfo) {
 	// placeholder assumed here and defined after the body has been executed.
 	var autoB, ctrT *smt.Term
 	autoOK := ctrPhi != nil && len(st.ghost) == 0 && !e.noAutoInv
+	var mapArrs []mapArr
 	for _, k := range sortedKeys(writes) {
 		// a local that every iteration overwrites before using it (the copy of
 		// the element in `for _, x := range xs`) carries nothing from one
 		// iteration to the next
-		if !b.iterationLocal(li, writes[k].Obj, stIn) {
-			autoOK = false
+		if b.iterationLocal(li, writes[k].Obj, stIn) {
+			continue
 		}
+		// a local array that iteration j writes at index j only ("map loop"):
+		// decided after the body has been executed (defineAutoInv)
+		l := writes[k]
+		if pv, ok := preVals[l.Obj].(*ArrV); ok && !l.Obj.Pre && len(l.Path) == 1 && l.Path[0].Idx != nil {
+			if hv, ok := st.mem[l.Obj].(*ArrV); ok {
+				if _, scalar := hv.Read(c.BVC(0, 64)).(Scalar); scalar {
+					mapArrs = append(mapArrs, mapArr{obj: l.Obj, pre: pv, hdr: hv})
+					continue
+				}
+			}
+		}
+		autoOK = false
 	}
 	if os.Getenv("GOVC_DEBUG") != "" {
 		fmt.Fprintf(os.Stderr, "loop %s.%s: phis=%d ctr=%v writes=%v ghost=%d\n", b.fn.Name(), label, len(phis), ctrPhi != nil, sortedKeys(writes), len(st.ghost))
@@ -721,7 +789,7 @@ func (b *bodyRun) runLoop(li *loopInfo) {
 			defer func() { c.FreshParams = c.FreshParams[:len(c.FreshParams)-1] }()
 			b.runRegion(li.order, li)
 		}()
-		b.defineAutoInv(li, autoB, ctrT, ctrInit, ctrSigned, hdrFacts, hdrRecs, axBefore, objsBefore)
+		b.defineAutoInv(li, autoB, ctrT, ctrInit, ctrSigned, hdrFacts, hdrRecs, axBefore, objsBefore, mapArrs)
 	} else {
 		b.runRegion(li.order, li)
 	}
@@ -1008,7 +1076,7 @@ func markFresh(v Value) {
 
 // invResolves evaluates an invariant once at the loop entry state and reports
 // why it cannot be evaluated ("" when it can).
-func (b *bodyRun) invResolves(inv Clause, names map[string]nameBinding, st *State, label string) (msg string) {
+func (b *bodyRun) invResolves(inv Clause, names map[string]nameBinding, st *State, label string, ctrPhi *ssa.Phi) (msg string) {
 	e := b.e
 	defer func() {
 		if r := recover(); r != nil {
@@ -1022,14 +1090,26 @@ func (b *bodyRun) invResolves(inv Clause, names map[string]nameBinding, st *Stat
 	e.dry++
 	defer func() { e.dry-- }()
 	nax := len(e.Axioms)
-	e.evalSpecBool(inv, b.specVars(names, nil), st.clone(), e.entryState(), label+" invariant")
+	var over map[string]specVar
+	if ctrPhi != nil {
+		over = map[string]specVar{"loopindex": func(s2 *State) Value { return s2.env[ctrPhi] }}
+	}
+	e.evalSpecBool(inv, b.specVars(names, over), st.clone(), e.entryState(), label+" invariant")
 	e.Axioms = e.Axioms[:nax]
 	return ""
 }
 
 // defineAutoInv adds the definition of the placeholder assumed at the head of
 // a search loop (see runLoop).
-func (b *bodyRun) defineAutoInv(li *loopInfo, autoB, ctr, init *smt.Term, signed bool, hdrFacts *facts, hdrRecs, axBefore, objsBefore int) {
+// mapArr is a local array written by a loop whose derived invariant is being
+// built: pre is its value before the loop, hdr its (arbitrary) value at the
+// head of an arbitrary iteration.
+type mapArr struct {
+	obj      *Object
+	pre, hdr *ArrV
+}
+
+func (b *bodyRun) defineAutoInv(li *loopInfo, autoB, ctr, init *smt.Term, signed bool, hdrFacts *facts, hdrRecs, axBefore, objsBefore int, mapArrs []mapArr) {
 	e := b.e
 	c := e.C
 	backs := b.back[li]
@@ -1081,6 +1161,69 @@ func (b *bodyRun) defineAutoInv(li *loopInfo, autoB, ctr, init *smt.Term, signed
 		conts = append(conts, es.st.guard)
 	}
 	add(c.Or(conts...))
+	// map loops: iteration j stores V(j) at index j of a local array and the
+	// body never reads that array.  Then at the head of iteration i the array
+	// holds V(j) at every j in [lo, i) and its pre-loop contents elsewhere.
+	var outside []*smt.Term // conjuncts not under the range guard
+	if len(mapArrs) > 0 {
+		if len(backs) != 1 {
+			e.note("loop%d: derived invariant not used (map loop with several back edges)", li.ordinal)
+			return
+		}
+		probe := c.BoundVar("x", smt.BV(64))
+		for _, ma := range mapArrs {
+			hv := ma.hdr.Read(probe).(Scalar).T
+			if hv.Op != "app" {
+				return
+			}
+			after, ok := backs[0].st.mem[ma.obj].(*ArrV)
+			if !ok {
+				return
+			}
+			r := after.Read(probe).(Scalar).T
+			// expected shape: ite(probe == IDX, V, hv(probe)) with IDX the index
+			// this iteration works on
+			if r.Op != "ite" || r.Args[2] != hv || r.Args[0].Op != "=" {
+				e.note("loop%d: derived invariant not used (array %s is not written at exactly one index per iteration)", li.ordinal, ma.obj.Name)
+				return
+			}
+			var idx *smt.Term
+			switch {
+			case r.Args[0].Args[0] == probe:
+				idx = r.Args[0].Args[1]
+			case r.Args[0].Args[1] == probe:
+				idx = r.Args[0].Args[0]
+			default:
+				return
+			}
+			if c.Subst(idx, sub) != jv {
+				e.note("loop%d: derived invariant not used (array %s is written at an index other than the loop's)", li.ordinal, ma.obj.Name)
+				return
+			}
+			val := r.Args[1]
+			// the body must not read the array (its head-of-iteration contents
+			// differ from one iteration to the next)
+			for _, p := range parts {
+				if smt.MentionsFunc(p, hv.Name) {
+					e.note("loop%d: derived invariant not used (the body reads array %s)", li.ordinal, ma.obj.Name)
+					return
+				}
+			}
+			if smt.MentionsFunc(val, hv.Name) {
+				return
+			}
+			hvAt := func(x *smt.Term) *smt.Term { return c.Subst(hv, map[*smt.Term]*smt.Term{probe: x}) }
+			parts = append(parts, c.Eq(hvAt(jv), c.Subst(val, sub)))
+			var out *smt.Term
+			if signed {
+				out = c.Or(c.BVSlt(probe, lo), c.BVSle(hi, probe))
+			} else {
+				out = c.Or(c.BVUlt(probe, lo), c.BVUle(hi, probe))
+			}
+			pre := ma.pre.Read(probe).(Scalar).T
+			outside = append(outside, c.Forall([]*smt.Term{probe}, c.Implies(out, c.Eq(hv, pre))))
+		}
+	}
 	body := c.And(parts...)
 	// objects allocated inside the body have one address per symbolic
 	// iteration; a generalised fact keyed by such an address would conflate
@@ -1096,6 +1239,9 @@ func (b *bodyRun) defineAutoInv(li *loopInfo, autoB, ctr, init *smt.Term, signed
 		rng = c.And(c.BVUle(lo, jv), c.BVUlt(jv, hi))
 	}
 	e.Axioms = append(e.Axioms, c.Implies(autoB, c.Forall([]*smt.Term{jv}, c.Implies(rng, body))))
+	for _, o := range outside {
+		e.Axioms = append(e.Axioms, c.Implies(autoB, o))
+	}
 	e.AutoInvs++
 }
 
@@ -1211,4 +1357,49 @@ func (b *bodyRun) iterationLocal(li *loopInfo, obj *Object, st *State) bool {
 		}
 	}
 	return true
+}
+
+
+// evalPure evaluates v in st; a value that is not in the environment yet
+// because its (pure) defining instructions sit in a loop header that has not
+// been executed from this state is computed on a scratch copy of the state.
+func (b *bodyRun) evalPure(st *State, v ssa.Value) Value {
+	e := b.e
+	if _, ok := st.env[v]; ok {
+		return e.eval(st, v)
+	}
+	switch v.(type) {
+	case *ssa.Const, *ssa.Global, *ssa.Function:
+		return e.eval(st, v)
+	}
+	tmp := st.clone()
+	e.dry++
+	defer func() { e.dry-- }()
+	var need func(x ssa.Value)
+	need = func(x ssa.Value) {
+		if _, ok := tmp.env[x]; ok {
+			return
+		}
+		ins, ok := x.(ssa.Instruction)
+		if !ok {
+			return
+		}
+		switch y := x.(type) {
+		case *ssa.FieldAddr:
+			need(y.X)
+		case *ssa.Field:
+			need(y.X)
+		case *ssa.UnOp:
+			need(y.X)
+		case *ssa.Call:
+			for _, a := range y.Call.Args {
+				need(a)
+			}
+		default:
+			return
+		}
+		e.step(tmp, ins)
+	}
+	need(v)
+	return e.eval(tmp, v)
 }
